@@ -83,7 +83,11 @@ def tlc(module_path, cfg_path, workdir, workers=8, extra=(), env=None, timeout=9
         e.update(env)
     if jopts:
         e["JAVA_TOOL_OPTIONS"] = jopts
-    cmd = ["java", "-DTLA-Library=" + os.path.join(ROOT, "spec", "common")]
+    # (TLC unpacks its standard modules into java.io.tmpdir on every start: keep that inside the work directory,
+    # which is removed after the run, instead of littering /tmp)
+    jtmp = os.path.join(workdir, "jtmp")
+    os.makedirs(jtmp, exist_ok=True)
+    cmd = ["java", "-DTLA-Library=" + os.path.join(ROOT, "spec", "common"), "-Djava.io.tmpdir=" + jtmp]
     if heap:
         cmd += ["-Xmx" + heap]
     cmd += ["-XX:+UseParallelGC", "-cp", TLA_JAR + ":/opt/veriftools/tla/CommunityModules-deps.jar",
